@@ -86,7 +86,7 @@ def main():
         'setup_cmd': 'true',
         'hooks': {'guard': 'MATCHINGPROBLEMS_VERIF',
                   'enable': 'no source hooks are needed: observation is at the public API, documented Model/Pair attributes and the pulp boundary (COIN_CMD.actualSolve), installed by the harness at run time',
-                  'baseline_off_cmd': 'cd /repo && /venv/bin/python -m pytest -q -p no:cacheprovider test',
+                  'baseline_off_cmd': 'cd /repo && /venv/bin/python -m pytest -ra -q -p no:cacheprovider --timeout=900 --continue-on-collection-errors',
                   'source_commits': [], 'add_only': True},
         'engines': [{'name': 'tla-mbt', 'path': 'spec/ + harness/',
                      'serves_properties': sorted(CHECKS),
